@@ -331,6 +331,38 @@ static void run_vm(Toks &tk) {
       g_trh = 0;
       g_trn = 0;
       printf("r=1 ");
+    } else if (c == "T") {
+      // complete stepping run: the location and the views of all activations at every stop
+      long cap = tk.num();
+      long maxstops = tk.num();
+      vm.setSteppingMode(true);
+      long n = 0, stops = 0;
+      size_t maxdepth = 0;
+      bool ended = false;
+      printf("trace=");
+      while (n < cap && stops < maxstops) {
+        int ip = vm.verifInstructionPointer();
+        const Program &pp = vm.verifProgram();
+        if (ip < 0 || ip >= (int)pp.code.size()) break;
+        OpCode o = pp.code[ip].op;
+        bool r = step_traced(vm);
+        n++;
+        maxdepth = std::max(maxdepth, vm.verifFrames().size());
+        if (o == OpCode::HALT) { ended = true; break; }
+        if (r) {
+          BreakPoint cb = vm.getCurrentBreak();
+          printf(" %s:%d@", hex(cb.file).c_str(), cb.line);
+          auto frames = vm.verifFrames();
+          auto &acts = vm.getActivations();
+          for (size_t k = 0; k < acts.size(); k++) {
+            printf("%s{", hex(pp.stack_maps[frames[k].debug_info].func_name).c_str());
+            for (auto &e : acts[k].getActivationVariables()) printf("%s=%d,", hex(e.first).c_str(), e.second);
+            printf("};");
+          }
+          stops++;
+        }
+      }
+      printf(" ended=%d stops=%ld n=%ld maxdepth=%zu r=1 ", ended ? 1 : 0, stops, n, maxdepth);
     } else if (c == "P") {
       // the instruction path: instruction pointers before each executed instruction, until HALT or cap
       long cap = tk.num();
